@@ -1216,6 +1216,264 @@ fn run_c16(args: &Args) -> Report {
     rep
 }
 
+// ----------------------------------------------------------------------------------
+// C17: project layout
+
+#[derive(Clone, Debug)]
+struct TPkg {
+    name: String,
+    dir: PathBuf,
+    local: bool,
+    /// names of direct dependencies as written in gleam.toml
+    deps: Vec<String>,
+    path_deps: Vec<String>,
+    /// (module name, "src"|"test")
+    modules: Vec<(String, &'static str)>,
+}
+
+fn ident_of(module: &str) -> String {
+    module.rsplit('/').next().unwrap().to_string()
+}
+
+fn module_text(module: &str, imports: &[(String, String)]) -> (String, Vec<(String, u32, u32)>) {
+    // returns text and, per import, (module name, line, column of the `_fn` use)
+    let b = ident_of(module);
+    let mut t = String::new();
+    let mut uses = Vec::new();
+    for (i, (m, _)) in imports.iter().enumerate() {
+        t.push_str(&format!("import {m} as q{i}\n"));
+    }
+    let up: String = b.chars().next().unwrap().to_uppercase().collect::<String>() + &b[1..];
+    t.push_str(&format!("\npub fn {b}_fn() {{ 1 }}\n\npub type {up}T {{ {up}C }}\n\nfn {b}_private() {{ 2 }}\n\npub fn {b}_main() {{\n"));
+    let mut line = t.lines().count() as u32;
+    for (i, (m, _)) in imports.iter().enumerate() {
+        let l = format!("  let _ = q{i}.{}_fn()\n", ident_of(m));
+        let col = l.find(&format!("{}_fn", ident_of(m))).unwrap() as u32;
+        uses.push((m.clone(), line, col));
+        t.push_str(&l);
+        line += 1;
+    }
+    t.push_str("  Nil\n}\n");
+    (t, uses)
+}
+
+fn run_c17(args: &Args) -> Report {
+    let mut rep = Report::new("C17", args.shard);
+    let bin = PathBuf::from(args.get("glas-bin").expect("--glas-bin"));
+    let base = args.out.join(format!("c17-shard{}", args.shard));
+    let mut r = Rng::derive(args.seed, args.shard as u64, 17);
+    let t0 = Instant::now();
+    let mut n = 0u64;
+    const MODS: &[&str] = &["alpha", "beta", "shared", "util/helpers", "deep/er/mod", "core", "app/main", "zeta"];
+    while t0.elapsed().as_secs_f64() < args.budget_s {
+        let case_seed = r.next_u64();
+        let mut cr = Rng::new(case_seed);
+        let _ = std::fs::remove_dir_all(&base);
+        let root = base.join("ws/root");
+        // packages: root, 1-3 registry deps, optional path dep
+        let nreg = cr.range(1, 3);
+        let has_path = cr.chance(1, 2);
+        let reg_names: Vec<String> = ["rega", "regb", "regc"].iter().take(nreg).map(|s| s.to_string()).collect();
+        let mut pkgs: Vec<TPkg> = Vec::new();
+        // Every registry package is in the dependency closure of the root (build/packages
+        // holds nothing else): it is either listed by the root, or only by an earlier
+        // registry package (then it is transitive-only for the root). Extra edges among
+        // registry packages give diamonds.
+        let mut root_deps: Vec<String> = Vec::new();
+        let mut reg_deps: Vec<Vec<String>> = vec![Vec::new(); reg_names.len()];
+        for (i, rn) in reg_names.iter().enumerate() {
+            if i == 0 || cr.chance(1, 2) {
+                root_deps.push(rn.clone());
+                if i > 0 && cr.chance(1, 2) {
+                    reg_deps[cr.below(i)].push(rn.clone()); // also reachable through another one: diamond
+                }
+            } else {
+                reg_deps[cr.below(i)].push(rn.clone());
+            }
+        }
+        pkgs.push(TPkg { name: "app".into(), dir: root.clone(), local: true, deps: root_deps, path_deps: if has_path { vec!["pathdep".into()] } else { vec![] }, modules: vec![] });
+        for (i, rn) in reg_names.iter().enumerate() {
+            let mut deps = reg_deps[i].clone();
+            deps.dedup();
+            pkgs.push(TPkg { name: rn.clone(), dir: root.join("build/packages").join(rn), local: false, deps, path_deps: vec![], modules: vec![] });
+        }
+        if has_path {
+            pkgs.push(TPkg { name: "pathdep".into(), dir: base.join("ws/pathdep"), local: true, deps: vec![], path_deps: vec![], modules: vec![] });
+        }
+        // modules: 1-3 per package from a small pool (equal names across packages happen), root gets a test/ module too
+        for (pi, p) in pkgs.iter_mut().enumerate() {
+            let k = cr.range(1, 3);
+            let mut pool: Vec<&str> = MODS.to_vec();
+            cr.shuffle(&mut pool);
+            for m in pool.into_iter().take(k) {
+                p.modules.push((m.to_string(), "src"));
+            }
+            if pi == 0 {
+                p.modules.push(("app_test".into(), "test"));
+            }
+            p.modules.push((format!("{}_entry", p.name), "src"));
+        }
+        // the model: which packages does P see
+        let sees = |p: &TPkg| -> Vec<String> {
+            let mut v = vec![p.name.clone()];
+            v.extend(p.deps.iter().cloned());
+            v.extend(p.path_deps.iter().cloned());
+            v
+        };
+        let all_modules: Vec<(String, String)> = pkgs.iter().flat_map(|p| p.modules.iter().map(move |(m, _)| (m.clone(), p.name.clone()))).collect();
+        // write the tree; the entry module of each package imports a sample of module names
+        let mut file_of: BTreeMap<(String, String), PathBuf> = BTreeMap::new(); // (pkg, module) -> path
+        let mut uses_of: BTreeMap<String, (PathBuf, String, Vec<(String, u32, u32)>)> = BTreeMap::new(); // pkg -> entry file, text, uses
+        for p in &pkgs {
+            std::fs::create_dir_all(p.dir.join("src")).unwrap();
+            let mut toml = format!("name = \"{}\"\nversion = \"1.0.0\"\n\n[dependencies]\n", p.name);
+            for d in &p.deps {
+                toml.push_str(&format!("{d} = \"~> 1.0\"\n"));
+            }
+            for d in &p.path_deps {
+                toml.push_str(&format!("{d} = {{ path = \"../{d}\" }}\n"));
+            }
+            std::fs::write(p.dir.join("gleam.toml"), toml).unwrap();
+            for (m, dirname) in &p.modules {
+                let path = p.dir.join(dirname).join(format!("{m}.gleam"));
+                std::fs::create_dir_all(path.parent().unwrap()).unwrap();
+                let is_entry = *m == format!("{}_entry", p.name);
+                let imports: Vec<(String, String)> = if is_entry {
+                    let mut cands = all_modules.clone();
+                    cr.shuffle(&mut cands);
+                    let mut seen = BTreeSet::new();
+                    cands.into_iter().filter(|(mm, _)| mm != m && seen.insert(mm.clone())).take(5).collect()
+                } else {
+                    vec![]
+                };
+                let (text, uses) = module_text(m, &imports);
+                std::fs::write(&path, &text).unwrap();
+                file_of.insert((p.name.clone(), m.clone()), path.clone());
+                if is_entry {
+                    uses_of.insert(p.name.clone(), (path, text, uses));
+                }
+            }
+        }
+        std::fs::create_dir_all(base.join("ws/loose")).unwrap();
+        let free = base.join("ws/loose/free.gleam");
+        std::fs::write(&free, "pub fn free_fn() { 1 }\n\npub fn caller() { free_fn() }\n").unwrap();
+
+        let replay = json!({"kind":"project-tree","case_seed":case_seed.to_string(),"packages":pkgs.iter().map(|p| json!({"name":p.name,"dir":p.dir.display().to_string(),"local":p.local,"deps":p.deps,"path_deps":p.path_deps,"modules":p.modules.iter().map(|(m,d)| format!("{d}/{m}")).collect::<Vec<_>>()})).collect::<Vec<_>>()});
+        rep.evaluations += 1;
+        let mut s = match Server::spawn(&bin, &[], None) { Ok(s) => s, Err(_) => { rep.inconclusive += 1; continue; } };
+        if s.initialize(Some(&file_uri(&root.display().to_string())), Duration::from_secs(20)).is_none() { rep.inconclusive += 1; continue; }
+        // opening order
+        let order = cr.below(3);
+        let order_name = ["root-first", "dependency-first", "free-standing-first"][order];
+        rep.see("opening_orders", order_name);
+        let mut to_open: Vec<(PathBuf, String)> = Vec::new();
+        for p in &pkgs {
+            if let Some((path, text, _)) = uses_of.get(&p.name) {
+                to_open.push((path.clone(), text.clone()));
+            }
+        }
+        let free_item = (free.clone(), std::fs::read_to_string(&free).unwrap());
+        match order {
+            0 => { to_open.push(free_item.clone()); }
+            1 => { to_open.reverse(); to_open.push(free_item.clone()); }
+            _ => { to_open.insert(0, free_item.clone()); }
+        }
+        let mut version = 0;
+        for (path, text) in &to_open {
+            version += 1;
+            s.notify("textDocument/didOpen", json!({"textDocument":{"uri":file_uri(&path.display().to_string()),"languageId":"gleam","version":version,"text":text}}));
+        }
+        // queries
+        let mut died = false;
+        for p in &pkgs {
+            let Some((path, _text, uses)) = uses_of.get(&p.name) else { continue };
+            let visible = sees(p);
+            for (m, line, col) in uses {
+                let uri = file_uri(&path.display().to_string());
+                let id = s.request("textDocument/definition", json!({"textDocument":{"uri":uri},"position":{"line":line,"character":col + 1}}));
+                let Some(resp) = s.wait_response(id, Duration::from_secs(20)) else { died = true; break; };
+                let cands: Vec<String> = pkgs.iter().filter(|q| visible.contains(&q.name)).filter_map(|q| file_of.get(&(q.name.clone(), m.clone()))).map(|f| vh::lspclient::normalise_uri(&file_uri(&f.display().to_string()))).collect();
+                let got: Vec<String> = match resp.get("result") {
+                    Some(Value::Array(a)) => a.iter().filter_map(|l| l["uri"].as_str()).map(vh::lspclient::normalise_uri).collect(),
+                    Some(Value::Object(o)) => o.get("uri").and_then(|u| u.as_str()).map(|u| vec![vh::lspclient::normalise_uri(u)]).unwrap_or_default(),
+                    _ => vec![],
+                };
+                let exists_somewhere = all_modules.iter().any(|(mm, _)| mm == m);
+                let class = if !cands.is_empty() { if cands.len() > 1 { "ambiguous-direct" } else { "direct" } } else if exists_somewhere { "transitive-or-unrelated-only" } else { "nonexistent" };
+                rep.see("import_cells", format!("{}:{}:{}", if p.local { if p.name == "app" { "from-root" } else { "from-path-dep" } } else { "from-registry-dep" }, class, order_name));
+                rep.count("definition_queries", 1);
+                let mut rp = replay.clone();
+                rp["query"] = json!({"from_package": p.name, "module": m, "line": line, "col": col, "opening_order": order_name});
+                if cands.is_empty() {
+                    if !got.is_empty() {
+                        rep.violate(
+                            format!("resolves-to-package-not-depended-on:{}:{}", if p.local { "local-importer" } else { "registry-importer" }, class),
+                            format!("package `{}` imports `{m}`, which exists only in a package it does not directly depend on, yet definition answers {got:?} ({order_name})", p.name),
+                            rp,
+                        );
+                    }
+                } else if got.is_empty() {
+                    rep.violate(
+                        format!("import-does-not-resolve:{}:{}:{}", if p.local { if p.name == "app" { "from-root" } else { "from-path-dep" } } else { "from-registry-dep" }, class, order_name),
+                        format!("package `{}` imports `{m}` available in {cands:?} but definition answers nothing ({order_name})", p.name),
+                        rp,
+                    );
+                } else if !got.iter().all(|g| cands.contains(g)) {
+                    rep.violate(
+                        format!("import-resolves-elsewhere:{order_name}"),
+                        format!("package `{}` imports `{m}`: definition answers {got:?}, candidates {cands:?}", p.name),
+                        rp,
+                    );
+                } else {
+                    // prepareRename: editable iff the target's package is local
+                    let target_pkg = pkgs.iter().find(|q| file_of.get(&(q.name.clone(), m.clone())).map(|f| vh::lspclient::normalise_uri(&file_uri(&f.display().to_string()))) == Some(got[0].clone()));
+                    if let Some(tp) = target_pkg {
+                        let id = s.request("textDocument/prepareRename", json!({"textDocument":{"uri":uri},"position":{"line":line,"character":col + 1}}));
+                        if let Some(pr) = s.wait_response(id, Duration::from_secs(20)) {
+                            let ok = pr.get("result").map(|r| !r.is_null()).unwrap_or(false);
+                            rep.count("prepare_rename_queries", 1);
+                            if ok != tp.local {
+                                rep.violate(
+                                    format!("external-package-editability:{}:{order_name}", if tp.local { "local-refused" } else { "build-packages-accepted" }),
+                                    format!("symbol of `{m}` in package `{}` (local={}) : prepareRename {}", tp.name, tp.local, if ok { "accepts" } else { "refuses" }),
+                                    rp,
+                                );
+                            }
+                        }
+                    }
+                }
+            }
+            if died { break; }
+        }
+        if died || !s.alive() {
+            rep.count("server_died(C15's business)", 1);
+            continue;
+        }
+        // free-standing file still gets answers
+        let fu = file_uri(&free.display().to_string());
+        let id = s.request("textDocument/hover", json!({"textDocument":{"uri":fu},"position":{"line":2,"character":19}}));
+        let hov = s.wait_response(id, Duration::from_secs(20));
+        let id2 = s.request("glas/syntaxTree", json!({"textDocument":{"uri":fu}}));
+        let tree = s.wait_response(id2, Duration::from_secs(20));
+        let hov_ok = hov.as_ref().and_then(|h| h.get("result")).map(|r| !r.is_null()).unwrap_or(false);
+        let tree_ok = tree.as_ref().and_then(|h| h.get("result")).map(|r| r.is_string()).unwrap_or(false);
+        if !hov_ok || !tree_ok {
+            rep.violate(
+                format!("free-standing-file-gets-no-answer:{}{}:{order_name}", if hov_ok { "" } else { "hover" }, if tree_ok { "" } else { "+syntaxTree" }),
+                format!("hover {:?} syntaxTree ok={tree_ok}", hov.as_ref().map(|h| h.get("error").cloned())),
+                replay.clone(),
+            );
+        }
+        rep.nontrivial(fnv(replay.to_string().as_bytes()));
+        if rep.samples.len() < 3 { rep.sample(json!({"packages": pkgs.iter().map(|p| json!([p.name, p.deps, p.path_deps, p.modules.iter().map(|m| m.0.clone()).collect::<Vec<_>>()])).collect::<Vec<_>>(), "order": order_name})); }
+        s.shutdown();
+        n += 1;
+    }
+    rep.count("trees", n);
+    let _ = std::fs::remove_dir_all(&base);
+    rep
+}
+
 fn main() {
     vh::panicmon::install();
     let args = Args::parse();
@@ -1223,6 +1481,7 @@ fn main() {
         ("C15", _) => run_c15(&args),
         ("C13", _) => run_c13bb(&args),
         ("C16", _) => run_c16(&args),
+        ("C17", _) => run_c17(&args),
         (p, _) => panic!("m_lsp does not serve {p}"),
     };
     rep.write(&args.out);
